@@ -42,11 +42,18 @@ structure Env where
   page : Nat
   /-- which `qb_vsnprintf_serialize` (as it is now = `Ser.Cfg.repaired`) -/
   ser : Ser.Cfg
-  /-- `false` = `_blackbox_vlogger` as it is: the fixed "too long" text is serialised with
-      `QB_LOG_MAX_LEN` as its bound, whatever was reserved (defect D32: with
-      `max_line_length < 78` more is committed than was allocated).  `true` = with the proposed
-      repair fixes/D32-…: the bound is `QB_MIN(QB_LOG_MAX_LEN, t->max_line_length)`. -/
+  /-- `true` = `_blackbox_vlogger` as it is now: the fixed "too long" text is serialised with
+      `QB_MIN(QB_LOG_MAX_LEN, t->max_line_length)` as its bound.  `false` = the code before the
+      repair of defect D32 (/repo 262ac0b): the bound was `QB_LOG_MAX_LEN` whatever was reserved, so
+      with `max_line_length < 78` more was committed than had been allocated; kept for the
+      refutation witness `bb_too_long_overcommit_witness`. -/
   fixD32 : Bool
+  /-- `false` = `_blackbox_vlogger` as it is: reservation and message bound are `t->max_line_length`
+      (up to 4096), although `qb_log_blackbox_print_from_file` rejects a record whose message is
+      longer than `QB_LOG_MAX_LEN` as a corrupt file (defect D33).  `true` = with the proposed
+      repair fixes/D33-…: `max_msg_len = QB_MIN(t->max_line_length, QB_LOG_MAX_LEN)` is used for
+      the reservation and for both calls of the encoder. -/
+  fixD33 : Bool
   deriving Repr
 
 /-- the fields of `struct qb_log_target` the blackbox uses -/
@@ -126,8 +133,15 @@ def fnSize (c : Call) : Nat := (Dump.cstr c.fn).length + 1
     line number, tags, priority, fn_size, function name, time stamp, message length -/
 def actualBase (c : Call) : Nat := 4 * BBX_SIZEOF_U32 + BBX_SIZEOF_U8 + fnSize c + BBX_SIZEOF_TIMESPEC
 
-/-- `max_size = actual_size + t->max_line_length`: the reservation -/
-def maxSize (t : Target) (c : Call) : Nat := actualBase c + t.maxLine
+/-- the bound of the message part for a line limit `maxLine`: `t->max_line_length` in the code as it
+    is, `max_msg_len = QB_MIN(t->max_line_length, QB_LOG_MAX_LEN)` with the repair of D33 -/
+def effLimit (e : Env) (maxLine : Nat) : Nat := if e.fixD33 then min maxLine BBX_LOG_MAX_LEN else maxLine
+
+def msgLimit (e : Env) (t : Target) : Nat := effLimit e t.maxLine
+
+/-- `max_size = actual_size + t->max_line_length` (resp. `+ max_msg_len`): the reservation for
+    message bound `lim` -/
+def maxSize (lim : Nat) (c : Call) : Nat := actualBase c + lim
 
 /-- the text of the record stored instead of a message that does not fit -/
 def TOO_LONG : Ser.Bytes :=
@@ -196,12 +210,13 @@ def vlogger (e : Env) (t : Target) (c : Call) : Target :=
   match t.inst with
   | none => t
   | some rb =>
-    match rb.alloc (maxSize t c) with
+    let lim := msgLimit e t
+    match rb.alloc (maxSize lim c) with
     | (_, some _) => { t with inst := none }
     | (rb1, none) =>
-      let m := serMessage e t.maxLine c
+      let m := serMessage e lim c
       let rA := rb1.fill (recHead c ++ toLe32 m.len ++ m.scratch)
-      { t with inst := some ((rA.fill (record e t.maxLine c)).commit (actualBase c + m.len)) }
+      { t with inst := some ((rA.fill (record e lim c)).commit (actualBase c + m.len)) }
 
 /-- a history of logger calls -/
 def logAll (e : Env) (t : Target) : List Call → Target
